@@ -5,6 +5,7 @@ CONSTANTS
   NV = 1
   NodeCap = 1
   PairK = 0
+  SeqDepth = 0
   MaxMut = 0
   GenMode = "none"
 CONSTRAINT Done
